@@ -17,8 +17,10 @@ PROOFS = os.path.join(VERIF, 'proofs')
 CLANG_INC = '/usr/lib/llvm-14/lib/clang/14.0.6/include'
 NCPU = int(os.environ.get('VERIF_JOBS', '16'))
 
+# no --conversion-check: every integer conversion in the lowered C is an LLVM trunc/zext/sext (exactly defined); the only conversions with
+# undefined behaviour, fptosi/fptoui out of range, get an explicit range obligation from ll2c
 SAFETY_FLAGS = ['--bounds-check', '--pointer-check', '--pointer-overflow-check', '--signed-overflow-check',
-                '--undefined-shift-check', '--div-by-zero-check', '--conversion-check']
+                '--undefined-shift-check', '--div-by-zero-check']
 
 class ToolLimit(Exception):
     pass
